@@ -556,7 +556,16 @@ def determinism_audit(sim, engine, tier, seed, outdir, sample_mod, extra=None,
     a, b = logs
     if not a:
         raise MachineryFault('determinism audit executed no runs')
-    diff = [i for i in a if a[i] != b.get(i)] + [i for i in b if i not in a]
+    # Runs that one of the two executions could not finish within the harness'
+    # wall-clock protection (no hash logged, or the 'undecided: wall clock'
+    # sentinel 0) say nothing about determinism: they are left out, and only a
+    # large share of them is a fault of the machinery.
+    common = [i for i in a if i in b and a[i] != 0 and b[i] != 0]
+    uncompared = (len(a) - len(common)) + len([i for i in b if i not in a])
+    if uncompared > max(3, len(a) // 50):
+        raise MachineryFault('determinism audit: %d of %d sampled runs could not be '
+                             'compared (wall-clock protection)' % (uncompared, len(a)))
+    diff = [i for i in common if a[i] != b[i]]
     if diff:
         msg = ('NONDETERMINISTIC: %d of %d sampled runs differ between '
                'W=1 and W=%d/no-ASLR executions, e.g. run %s' %
